@@ -133,11 +133,13 @@ def call_model(c, t, at, edge):
             D = eng.disjuncts(name, c.choice[1])
             if D and c.choice[2] < len(D):
                 eng.summary(name, a, caller=(c.path, c.args, site))
-                if c.final and c.is_live() and at is not None:
+                if c.final and c.is_live() and at is not None and (site is None or at == site):
                     c.note_callee(name, a)
                 return D[c.choice[2]][1]
         r = eng.summary(name, a, caller=(c.path, c.args, site))
-        if c.final and c.is_live() and at is not None:
+        # (the call is made where it stands: evaluated as part of a larger term at some other block, the facts that hold at
+        # the call itself may be missing there - such an evaluation is not a call this context makes)
+        if c.final and c.is_live() and at is not None and (site is None or at == site):
             c.note_callee(name, a)
         return r
     if f is not None and f["kind"] == "Closure":
@@ -152,7 +154,9 @@ def call_model(c, t, at, edge):
         if any(x[0] == "b" for x in a):
             return BOT
         r = eng.summary(name, a, caller=(c.path, c.args, site))
-        if c.final and c.is_live() and at is not None:
+        # (the call is made where it stands: evaluated as part of a larger term at some other block, the facts that hold at
+        # the call itself may be missing there - such an evaluation is not a call this context makes)
+        if c.final and c.is_live() and at is not None and (site is None or at == site):
             c.note_callee(name, a)
         return r
     # ---------------------------------------------------------------- closure invocation through Fn traits
